@@ -1138,7 +1138,9 @@ _object_key:
 		rt.ConvTBool(true, (*interface{})(val))
 	case KFalse:
 		rt.ConvTBool(false, (*interface{})(val))
-	case KNull: /* skip */
+	case KNull:
+		/* the slot of a duplicated key holds its earlier value: the last one wins */
+		*(*interface{})(val) = nil
 	case KUint:
 		ctx.efacePool.ConvF64(float64(node.U64()), val)
 	case KSint:
